@@ -249,7 +249,7 @@ impl ChanModel {
         let mut htlcs: Vec<(HTLCOutputInCommitment, ())> =
             Self::htlcs_oic(content).into_iter().map(|h| (h, ())).collect();
         let mut tx = CommitmentTransaction::new_with_auxiliary_htlc_data(
-            INITIAL_COMMITMENT_NUMBER - n,
+            INITIAL_COMMITMENT_NUMBER.wrapping_sub(n),
             content.to_holder_sat,
             content.to_counterparty_sat,
             holder.funding_pubkey,
@@ -414,7 +414,7 @@ impl ChanModel {
         }
         let mut with_aux: Vec<(HTLCOutputInCommitment, ())> = oic.iter().cloned().map(|h| (h, ())).collect();
         let tx = CommitmentTransaction::new_with_auxiliary_htlc_data(
-            INITIAL_COMMITMENT_NUMBER - n,
+            INITIAL_COMMITMENT_NUMBER.wrapping_sub(n),
             content.to_counterparty_sat,
             content.to_holder_sat,
             self.cp_points.funding_pubkey,
